@@ -304,6 +304,13 @@ class RefSig:
                 if isinstance(c, dict) and "ref" in c:
                     self.marks.append((j, c["ref"]))
         self.END = len(bp["nodes"]) + 1
+        # Submitting a task asks its (sealed) pre-tasks and init tasks for their raw identifier,
+        # which is cached from then on: later output marks do not show in it any more
+        self.cache_time = {}
+        for j, node in enumerate(bp["nodes"]):
+            if node.get("submit") is not None:
+                for p in list(node["submit"].get("init", [])) + self.pre_tasks(j, j):
+                    self.cache_time.setdefault(p, j)
 
     def mark_at(self, c, t):
         """The task whose output mark configuration c carries at time t (None if unmarked)"""
@@ -402,6 +409,8 @@ class RefSig:
         t = self.END if t is None else t
         if i in path:
             return ("cycle", len(path) - path.index(i))
+        if i in self.cache_time and t > self.cache_time[i] and i not in self.cyc:
+            t = self.cache_time[i]  # served from the identifier cache
         memo = i not in self.cyc
         if memo and (i, t) in self._memo:
             return self._memo[(i, t)]
@@ -478,9 +487,10 @@ class RefSig:
             items.append(("w", ("int", self.coerce(v, "int"))))
         return ("cfg", sp["id"], tuple(sorted(items)), None)
 
-    def pre_tasks(self, i):
-        """Distinct pre-task nodes reachable from node i (through parameters, outputs'
-        producing tasks, pre-tasks and init tasks)"""
+    def pre_tasks(self, i, t=None):
+        """Distinct pre-task nodes reachable from node i at time t (through parameters, outputs'
+        producing tasks - also for parameters marked as outputs -, pre-tasks and init tasks)"""
+        t = self.END if t is None else t
         seen = set()
         pre = []
         stack = [i]
@@ -494,6 +504,9 @@ class RefSig:
                 if p not in pre:
                     pre.append(p)
             stack.extend(successors(self.bp, self.eff, k, with_pre=True))
+            m = self.mark_at(k, t)
+            if m is not None:
+                stack.append(m)  # the walk follows the link to the producing task
         return pre
 
     def full(self, i):
@@ -503,7 +516,7 @@ class RefSig:
             return self._full[i]
         node = self.bp["nodes"][i]
         t = i if node.get("submit") is not None else self.END
-        pres = tuple(sorted((self.csig(p, [], t) for p in self.pre_tasks(i)), key=repr))
+        pres = tuple(sorted((self.csig(p, [], t) for p in self.pre_tasks(i, t)), key=repr))
         inits = tuple(self.csig(k, [], t) for k in (node.get("submit") or {}).get("init", []))
         r = ("full", self.csig(i, [], t), pres, inits)
         self._full[i] = r
